@@ -1,5 +1,76 @@
-(* C12 -- placeholder while the proofs are being written *)
-From Coq Require Import ZArith List.
-From L60870 Require Import Asdu.Layout Asdu.Codec gen.AsduTable.
-Theorem C12_table_nonempty : table <> nil.
-Proof. discriminate. Qed.
+(* C12 -- building ASDUs never exceeds configured size or storage, and fails cleanly.
+   Model: Asdu/Codec.v add_io (= CS101_ASDU_addInformationObject over the row's encoder), add_payload.  `used` is
+   asduHeaderLength + payloadSize; a write beyond encodedData[255] is the outcome Fault OOBWrite.
+   Hypotheses common to the theorems: the row's encoder satisfies enc_okb (check constants = octets written = n),
+   the facts about addInformationObject (limit 127, type octet written only after a successful encode) hold,
+   the object's body has the type's length, maxSizeOfASDU <= 256. *)
+From Coq Require Import ZArith List Bool String.
+From L60870 Require Import Asdu.Layout Asdu.Codec Asdu.CodecProofs gen.AsduTable gen.AsduKnown.
+Import ListNotations.
+Local Open Scope Z_scope.
+
+Section C12.
+  Variables (fnl : asdu_level) (tbl : list row) (a : alp) (s s' : asdu) (t : Z) (o : io) (r : row) (n : Z).
+  Hypothesis Hf : find_row tbl t = Some r.
+  Hypothesis He : enc_okb (r_enc r) n = true.
+  Hypothesis Hb : len (io_body o) = n.
+  Hypothesis Hl : add_limit fnl = Some 127.
+  Hypothesis Hg : add_type_guarded fnl = Some true.
+  Hypothesis Ha : ioa_ok a.
+  Hypothesis Hm : max_asdu a <= 256.
+
+  (* the ASDU never grows beyond the configured maximum (hence never beyond its 256 octets of storage) *)
+  Theorem C12_size : forall b, add_io fnl tbl a s t o = Ok (b, s') -> used s <= max_asdu a -> used s' <= max_asdu a <= 256.
+  Proof. exact (add_size_bounded fnl tbl a s s' t o r n Hf He Hb Hl Hg Ha Hm). Qed.
+
+  (* the element count grows by exactly one per accepted object, never exceeds 127, never touches the SQ bit *)
+  Theorem C12_count : add_io fnl tbl a s t o = Ok (true, s') -> 2 <= len (a_hdr s) -> 0 <= a_vsq s < 256 ->
+    a_count s' = a_count s + 1 /\ a_count s' <= 127 /\ a_sq s' = a_sq s.
+  Proof. exact (add_count fnl tbl a s s' t o r n Hf He Hb Hl Hg Ha Hm). Qed.
+
+  (* a refused addition (does not fit / other type / address not consecutive / 127 reached) leaves every octet unchanged *)
+  Theorem C12_atomic : add_io fnl tbl a s t o = Ok (false, s') -> s' = s.
+  Proof. exact (add_refused_unchanged fnl tbl a s s' t o r n Hf He Hb Hl Hg Ha Hm). Qed.
+
+  (* an accepted addition appends exactly the object's encoding *)
+  Theorem C12_append : add_io fnl tbl a s t o = Ok (true, s') ->
+    a_pay s' = a_pay s ++ enc_bytes a (add_sq s) o /\ len (a_hdr s') = len (a_hdr s) /\
+    used s' = used s + enc_size a (add_sq s) n /\ used s' <= max_asdu a.
+  Proof. exact (add_accepted_appends fnl tbl a s s' t o r n Hf He Hb Hl Hg Ha Hm). Qed.
+
+  (* no construction step writes outside the storage *)
+  Theorem C12_no_fault : exists b s2, add_io fnl tbl a s t o = Ok (b, s2).
+  Proof. exact (add_no_fault fnl tbl a s t o r n Hf He Hb Hl Hg Ha Hm). Qed.
+
+  (* which additions are accepted: exactly those that fit and respect type / continuity / the 127 limit *)
+  Theorem C12_decision : add_io fnl tbl a s t o =
+    Ok (if add_allowed a s t o && negb (max_asdu a - used s <? enc_size a (add_sq s) n) then (true, add_result a s t o) else (false, s)).
+  Proof. exact (add_io_spec fnl tbl a s t o r n Hf He Hb Hl Hg Ha Hm). Qed.
+End C12.
+
+(* raw payload: accepted iff it fits the 256 octets of storage, appended unchanged, otherwise nothing happens *)
+Theorem C12_add_payload : forall fnl s bs, payload_bound fnl = Some 256 ->
+  add_payload fnl s bs = Ok (if used s + len bs <=? 256 then (true, append bs s) else (false, s)).
+Proof. exact add_payload_spec. Qed.
+
+(* per run: encoders and addInformationObject/addPayload/getSpaceLeft of the working tree satisfy the hypotheses *)
+Theorem C12_current : forall r, In r table -> ~ In (tid r) known_C12 -> row_c12_okb r = true.
+Proof. apply rows_okb_sound. vm_compute. reflexivity. Qed.
+Theorem C12_current_asdu_level : add_limit asdu_fn = Some 127 /\ add_type_guarded asdu_fn = Some true /\ payload_bound asdu_fn = Some 256.
+Proof. apply asdu_fn_okb_sound. vm_compute. reflexivity. Qed.
+
+(* inhabited, and the hypothesis on the check is necessary: with the check of the original F_SR_NA_1 encoder (1 instead of 7)
+   the same addition produces an ASDU longer than the maximum *)
+Definition ex_row (c : Z) : row :=
+  {| tid := 121; rname := "F_SR_NA_1"%string; r_enc := Enc (Some (ECk c c false)) false [EL LIoa; EL LByte; EL LByte; EL LByte; EL LByte; EL LByte; EL LByte; EL LByte];
+     r_dec := DecUnrecognised ""%string; r_elem := ESingle |}.
+Definition ex_alp : alp := {| cot_sz := 1; ca_sz := 1; ioa_sz := 1; max_asdu := 10 |}.
+Definition ex_fn : asdu_level := {| add_limit := Some 127; add_type_guarded := Some true; payload_bound := Some 256; space_formula := true |}.
+Definition ex_obj : io := {| io_addr := 9; io_body := [1; 2; 3; 4; 5; 6; 7] |}.
+Example C12_inhabited :
+  enc_okb (r_enc (ex_row 7)) 7 = true /\
+  add_io ex_fn [ex_row 7] ex_alp (new_asdu ex_alp false 3 0 1 false false) 121 ex_obj = Ok (false, new_asdu ex_alp false 3 0 1 false false).
+Proof. vm_compute. split; reflexivity. Qed.
+Example C12_check_necessary :
+  exists s', add_io ex_fn [ex_row 1] ex_alp (new_asdu ex_alp false 3 0 1 false false) 121 ex_obj = Ok (true, s') /\ used s' = 12 /\ max_asdu ex_alp = 10.
+Proof. eexists. vm_compute. repeat split. Qed.
